@@ -9,6 +9,14 @@
 (* are written either at root level (modules are full VCL files) or inside *)
 (* a subroutine (modules are statement lists).                             *)
 (*                                                                         *)
+(* A third placement, "block", nests every include statement in an         *)
+(* if / else block - in vcl_recv and inside the included modules.  Those   *)
+(* blocks are linted (and their include statements met) after the module   *)
+(* has been loaded; the linter resolves them while the module is still on  *)
+(* the chain (resolveNestedIncludeStatements), so the stack machine below  *)
+(* describes this placement too.  (Before that repair the chain had been   *)
+(* popped by then and `if (..) { include "itself"; }` recursed for ever.)  *)
+(*                                                                         *)
 (* Requirement (property C11): expansion terminates for every graph -      *)
 (* missing, self-including and mutually including modules included - and   *)
 (* ends in a report, never in unbounded recursion.                         *)
@@ -30,7 +38,7 @@ Todo(S) == SelectSeq(Order, LAMBDA t : t \in S)
 EdgeCount(g) == Cardinality(g["main"]) + Cardinality(g["a"]) + Cardinality(g["b"])
 Graphs == { g \in [Modules -> SUBSET Targets] : EdgeCount(g) <= MaxEdges }
 
-VARIABLES inc, place,   \* the graph and the placement ("root" | "sub"): constant along a behaviour
+VARIABLES inc, place,   \* the graph and the placement ("root" | "sub" | "block"): constant along a behaviour
           stack,        \* frames [mod, todo]: files being expanded, innermost last
           missing,      \* include/module-load-failed: file not found
           cyclic,       \* include/module-load-failed: module included recursively
@@ -41,7 +49,7 @@ vars == <<inc, place, stack, missing, cyclic, loads, done>>
 Chain == { stack[i].mod : i \in DOMAIN stack }
 
 Init ==
-  /\ inc \in Graphs /\ place \in {"root", "sub"}
+  /\ inc \in Graphs /\ place \in {"root", "sub", "block"}
   /\ stack = << [mod |-> "main", todo |-> Todo(inc["main"])] >>
   /\ missing = 0 /\ cyclic = 0 /\ loads = [m \in Modules |-> 0] /\ done = FALSE
 
